@@ -60,8 +60,15 @@ func deepTo(b *strings.Builder, obj slip.Object, depth int) {
 		b.WriteString(". ")
 		deepTo(b, to.Value, depth+1)
 	case *slip.Vector:
-		fmt.Fprintf(b, "#<vector et=%s adj=%v fill=%d ", elemType(to.ElementType()), to.Adjustable(), to.FillPtr)
-		deepTo(b, to.AsList(), depth+1)
+		// the active part is what sequence functions see, the storage behind
+		// the fill pointer is still reached by aref and array-dimensions
+		fmt.Fprintf(b, "#<vector et=%s adj=%v fill=%d dims=%v ", elemType(to.ElementType()), to.Adjustable(), to.FillPtr, to.Dimensions())
+		active := to.AsList()
+		deepTo(b, active, depth+1)
+		if all := to.Elements(); len(active) < len(all) {
+			b.WriteString(" hidden=")
+			deepTo(b, slip.List(all[len(active):]), depth+1)
+		}
 		b.WriteByte('>')
 	case *slip.Array:
 		fmt.Fprintf(b, "#<array dims=%v et=%s adj=%v ", to.Dimensions(), elemType(to.ElementType()), to.Adjustable())
